@@ -266,5 +266,915 @@ theorem vstack_congr [Zero R] (c : Nat) {L L' : List (Nat × MatF R)}
     · simp only [hi, if_true]; exact h2 i j hi hj
     · simp only [hi, if_false]; exact ih (i - r) j hj
 
+omit [DecidableEq R] in
+theorem same_prod {Ms Ms' : List (Op R)} (hw : (prod Ms).wf = true)
+    (h : List.Forall₂ Same Ms Ms') : Same (prod Ms) (prod Ms') := by
+  simp only [Op.wf, Bool.and_eq_true] at hw
+  cases h with
+  | nil => simp at hw
+  | @cons M0 M0' Ms Ms' h0 hrest =>
+    have hr := Same.map_rows (List.Forall₂.cons h0 hrest)
+    have hc := Same.map_cols (List.Forall₂.cons h0 hrest)
+    refine ⟨?_, ?_, ?_⟩
+    · simp only [Op.rows, hr]
+    · simp only [Op.cols, hc]
+    · have key := denChain_same Ms Ms' M0 M0' h0 hrest hw.2
+      simp only [Op.rows, Op.cols, Op.den, forceV_f, List.map_cons, List.head?_cons,
+        Option.getD_some] at key ⊢
+      exact key
+
+omit [DecidableEq R] in
+theorem same_sum {Ms Ms' : List (Op R)} (hw : (sum Ms).wf = true)
+    (h : List.Forall₂ Same Ms Ms') : Same (sum Ms) (sum Ms') := by
+  have hsh0 := sum_shapes Ms hw
+  have hr := Same.map_rows h
+  have hc := Same.map_cols h
+  refine ⟨?_, ?_, ?_⟩
+  · simp only [Op.rows, hr]
+  · simp only [Op.cols, hc]
+  · have hF : ∀ r c, (∀ M ∈ Ms, M.rows = r ∧ M.cols = c) →
+        List.Forall₂ (EqOn r c) (Ms.map (·.den.f)) (Ms'.map (·.den.f)) := by
+      intro r c hsh
+      rw [List.forall₂_map_left_iff, List.forall₂_map_right_iff]
+      clear hr hc hw hsh0
+      induction h with
+      | nil => exact List.Forall₂.nil
+      | @cons M M' _ _ h1 _ ih =>
+        refine List.Forall₂.cons ?_ (ih (fun N hN => hsh N (List.mem_cons_of_mem _ hN)))
+        have := hsh M List.mem_cons_self
+        rw [← this.1, ← this.2]
+        exact h1.2.2
+    have key := foldr_addM_congr _ _ (hF _ _ hsh0)
+    simp only [Op.den, forceV_f]
+    exact key
+
+omit [DecidableEq R] in
+theorem same_kron {Ms Ms' : List (Op R)} (h : List.Forall₂ Same Ms Ms') :
+    Same (kron Ms) (kron Ms') := by
+  have hr := Same.map_rows h
+  have hc := Same.map_cols h
+  have hlen := h.length_eq
+  refine ⟨?_, ?_, ?_⟩
+  · simp only [Op.rows, hr]
+  · simp only [Op.cols, hc]
+  · intro I J hI hJ
+    simp only [Op.rows] at hI
+    simp only [Op.cols] at hJ
+    have e1 : (Ms.zip Ms').map (fun p => facDen (R := R) p.1) = Ms.map facDen :=
+      map_zip_fst facDen Ms Ms' hlen
+    have e2 : (Ms.zip Ms').map (fun p => facDen (R := R) p.2) = Ms'.map facDen :=
+      map_zip_snd facDen Ms Ms' hlen
+    have key := kronDen_congr (fun p : Op R × Op R => facDen p.1) (fun p => facDen p.2)
+      (Ms.zip Ms') (Same.facEqOn h) I J
+      (by rw [e1, List.map_map]; exact hI) (by rw [e1, List.map_map]; exact hJ)
+    rw [e1, e2] at key
+    simp only [Op.den, forceV_f]
+    exact key
+
+omit [DecidableEq R] in
+theorem same_kronsum {Ms Ms' : List (Op R)} (h : List.Forall₂ Same Ms Ms') :
+    Same (kronsum Ms) (kronsum Ms') := by
+  have hr := Same.map_rows h
+  have hc := Same.map_cols h
+  have hlen := h.length_eq
+  refine ⟨?_, ?_, ?_⟩
+  · simp only [Op.rows, hr]
+  · simp only [Op.cols, hc]
+  · intro I J hI hJ
+    simp only [Op.rows] at hI
+    simp only [Op.cols] at hJ
+    have e1 : (Ms.zip Ms').map (fun p => facDen (R := R) p.1) = Ms.map facDen :=
+      map_zip_fst facDen Ms Ms' hlen
+    have e2 : (Ms.zip Ms').map (fun p => facDen (R := R) p.2) = Ms'.map facDen :=
+      map_zip_snd facDen Ms Ms' hlen
+    have key := kronSumDen_congr (fun p : Op R × Op R => facDen p.1) (fun p => facDen p.2)
+      (Ms.zip Ms') (Same.facEqOn h) I J
+      (by rw [e1, List.map_map]; exact hI) (by rw [e1, List.map_map]; exact hJ)
+    rw [e1, e2] at key
+    simp only [Op.den, forceV_f]
+    exact key
+
+omit [DecidableEq R] in
+theorem same_bdiag {Ms Ms' : List (Op R)} (mults : List Nat) (h : List.Forall₂ Same Ms Ms') :
+    Same (bdiag Ms mults) (bdiag Ms' mults) := by
+  have hr := Same.map_rows h
+  have hc := Same.map_cols h
+  have hlen := h.length_eq
+  refine ⟨?_, ?_, ?_⟩
+  · simp only [Op.rows, hr]
+  · simp only [Op.cols, hc]
+  · intro I J _ _
+    have e1 : (Ms.zip Ms').map (fun p => facDen (R := R) p.1) = Ms.map facDen :=
+      map_zip_fst facDen Ms Ms' hlen
+    have e2 : (Ms.zip Ms').map (fun p => facDen (R := R) p.2) = Ms'.map facDen :=
+      map_zip_snd facDen Ms Ms' hlen
+    have key := bdiagDen_congr (fun p : Op R × Op R => facDen p.1) (fun p => facDen p.2)
+      (Ms.zip Ms') mults (Same.facEqOn h) I J
+    rw [e1, e2] at key
+    simp only [Op.den, forceV_f]
+    exact key
+
+omit [DecidableEq R] in
+theorem same_concat_h {Ms Ms' : List (Op R)} (hw : (concat true Ms).wf = true)
+    (h : List.Forall₂ Same Ms Ms') : Same (concat true Ms) (concat true Ms') := by
+  have hsh0 := concat_shapes_h Ms hw
+  have hr := Same.map_rows h
+  have hc := Same.map_cols h
+  refine ⟨?_, ?_, ?_⟩
+  · simp only [Op.rows, hr]
+  · simp only [Op.cols, hc]
+  · have hF : ∀ r, (∀ M ∈ Ms, M.rows = r) → List.Forall₂ (fun p q : Nat × MatF R =>
+        p.1 = q.1 ∧ EqOn r p.1 p.2 q.2)
+        (Ms.map (fun M => (M.cols, M.den.f))) (Ms'.map (fun M => (M.cols, M.den.f))) := by
+      intro r hsh
+      rw [List.forall₂_map_left_iff, List.forall₂_map_right_iff]
+      clear hr hc hw hsh0
+      induction h with
+      | nil => exact List.Forall₂.nil
+      | @cons M M' _ _ h1 _ ih =>
+        refine List.Forall₂.cons ⟨h1.2.1, ?_⟩ (ih (fun N hN => hsh N (List.mem_cons_of_mem _ hN)))
+        rw [← hsh M List.mem_cons_self]
+        exact h1.2.2
+    intro i j hi _
+    have key := hstack_congr _ (hF _ hsh0) i j hi
+    simp only [Op.den, if_true, MatV.of_f]
+    exact key
+
+omit [DecidableEq R] in
+theorem same_concat_v {Ms Ms' : List (Op R)} (hw : (concat false Ms).wf = true)
+    (h : List.Forall₂ Same Ms Ms') : Same (concat false Ms) (concat false Ms') := by
+  have hsh0 := concat_shapes_v Ms hw
+  have hr := Same.map_rows h
+  have hc := Same.map_cols h
+  refine ⟨?_, ?_, ?_⟩
+  · simp only [Op.rows, hr]
+  · simp only [Op.cols, hc]
+  · have hF : ∀ c, (∀ M ∈ Ms, M.cols = c) → List.Forall₂ (fun p q : Nat × MatF R =>
+        p.1 = q.1 ∧ EqOn p.1 c p.2 q.2)
+        (Ms.map (fun M => (M.rows, M.den.f))) (Ms'.map (fun M => (M.rows, M.den.f))) := by
+      intro c hsh
+      rw [List.forall₂_map_left_iff, List.forall₂_map_right_iff]
+      clear hr hc hw hsh0
+      induction h with
+      | nil => exact List.Forall₂.nil
+      | @cons M M' _ _ h1 _ ih =>
+        refine List.Forall₂.cons ⟨h1.1, ?_⟩ (ih (fun N hN => hsh N (List.mem_cons_of_mem _ hN)))
+        rw [← hsh M List.mem_cons_self]
+        exact h1.2.2
+    intro i j _ hj
+    have key := vstack_congr _ (hF _ hsh0) i j hj
+    simp only [Op.den, Bool.false_eq_true, if_false, MatV.of_f]
+    exact key
+
+omit [DecidableEq R] in
+theorem same_sliced {A A' : Op R} (s t : Ix) (h : Same A A') :
+    Same (sliced A s t) (sliced A' s t) := by
+  refine ⟨?_, ?_, ?_⟩
+  · simp only [Op.rows, h.1]
+  · simp only [Op.cols, h.2.1]
+  · intro i j hi hj
+    simp only [Op.rows] at hi
+    simp only [Op.cols] at hj
+    simp only [Op.den, MatV.of_f, slicedDen, ← h.1, ← h.2.1]
+    exact h.2.2 _ _ (getD_resolve_lt _ _ _ (getD_mem_of_lt _ i hi))
+      (getD_resolve_lt _ _ _ (getD_mem_of_lt _ j hj))
+
+/-- **`sameObj` is sound**: operators identified by the model of Python `is` have the same shape
+and the same represented matrix on the window. -/
+theorem sameObj_sound : ∀ (A B : Op R), A.wf = true → sameObj A B = true → Same A B
+  | dense d r c a, B, _, h => by
+    cases B <;> simp only [sameObj, Bool.false_eq_true] at h
+    simp only [Bool.and_eq_true, beq_iff_eq] at h
+    obtain ⟨⟨⟨rfl, rfl⟩, rfl⟩, h4⟩ := h
+    exact ⟨by simp only [Op.rows], by simp only [Op.cols],
+      by simp only [Op.rows, Op.cols, Op.den, MatV.of_f]; exact winEq_eqOn h4⟩
+  | tri d r c l a, B, _, h => by
+    cases B <;> simp only [sameObj, Bool.false_eq_true] at h
+    simp only [Bool.and_eq_true, beq_iff_eq] at h
+    obtain ⟨⟨⟨⟨rfl, rfl⟩, rfl⟩, rfl⟩, h4⟩ := h
+    exact ⟨by simp only [Op.rows], by simp only [Op.cols],
+      by simp only [Op.rows, Op.cols, Op.den, MatV.of_f]; exact winEq_eqOn h4⟩
+  | sparse d r c e, B, _, h => by
+    cases B <;> simp only [sameObj, Bool.false_eq_true] at h
+    simp only [Bool.and_eq_true, beq_iff_eq] at h
+    obtain ⟨⟨⟨rfl, rfl⟩, rfl⟩, rfl⟩ := h
+    exact ⟨rfl, rfl, EqOn.refl _ _ _⟩
+  | scalar d s n, B, _, h => by
+    cases B <;> simp only [sameObj, Bool.false_eq_true] at h
+    simp only [Bool.and_eq_true, beq_iff_eq] at h
+    obtain ⟨⟨rfl, rfl⟩, rfl⟩ := h
+    exact ⟨rfl, rfl, EqOn.refl _ _ _⟩
+  | eye d n, B, _, h => by
+    cases B <;> simp only [sameObj, Bool.false_eq_true] at h
+    simp only [Bool.and_eq_true, beq_iff_eq] at h
+    obtain ⟨rfl, rfl⟩ := h
+    exact ⟨rfl, rfl, EqOn.refl _ _ _⟩
+  | prod Ms, B, hw, h => by
+    cases B <;> simp only [sameObj, Bool.false_eq_true] at h
+    have hw' := hw
+    simp only [Op.wf, Bool.and_eq_true] at hw'
+    exact same_prod hw (same_members (sameList_forall₂ _ _ h)
+      (fun M hM B hB => sameObj_sound M B (wf_members hw'.1.2 M hM) hB))
+  | sum Ms, B, hw, h => by
+    cases B <;> simp only [sameObj, Bool.false_eq_true] at h
+    have hw' := hw
+    simp only [Op.wf, Bool.and_eq_true] at hw'
+    exact same_sum hw (same_members (sameList_forall₂ _ _ h)
+      (fun M hM B hB => sameObj_sound M B (wf_members hw'.1.2 M hM) hB))
+  | kron Ms, B, hw, h => by
+    cases B <;> simp only [sameObj, Bool.false_eq_true] at h
+    simp only [Op.wf, Bool.and_eq_true] at hw
+    exact same_kron (same_members (sameList_forall₂ _ _ h)
+      (fun M hM B hB => sameObj_sound M B (wf_members hw.2 M hM) hB))
+  | kronsum Ms, B, hw, h => by
+    cases B <;> simp only [sameObj, Bool.false_eq_true] at h
+    simp only [Op.wf, Bool.and_eq_true] at hw
+    exact same_kronsum (same_members (sameList_forall₂ _ _ h)
+      (fun M hM B hB => sameObj_sound M B (wf_members hw.1.2 M hM) hB))
+  | bdiag Ms mults, B, hw, h => by
+    cases B <;> simp only [sameObj, Bool.false_eq_true] at h
+    simp only [Op.wf, Bool.and_eq_true] at hw
+    simp only [Bool.and_eq_true, beq_iff_eq] at h
+    obtain ⟨rfl, h⟩ := h
+    exact same_bdiag mults (same_members (sameList_forall₂ _ _ h)
+      (fun M hM B hB => sameObj_sound M B (wf_members hw.1.2 M hM) hB))
+  | diag d n v, B, _, h => by
+    cases B <;> simp only [sameObj, Bool.false_eq_true] at h
+    simp only [Bool.and_eq_true, beq_iff_eq] at h
+    obtain ⟨⟨rfl, rfl⟩, h3⟩ := h
+    refine ⟨by simp only [Op.rows], by simp only [Op.cols], ?_⟩
+    intro i j hi _
+    simp only [Op.rows] at hi
+    simp only [Op.den, MatV.of_f, diagM, vecEq_eq h3 i hi]
+  | tridiag d n al be ga, B, _, h => by
+    cases B <;> simp only [sameObj, Bool.false_eq_true] at h
+    simp only [Bool.and_eq_true, beq_iff_eq] at h
+    obtain ⟨⟨⟨⟨rfl, rfl⟩, h3⟩, h4⟩, h5⟩ := h
+    refine ⟨by simp only [Op.rows], by simp only [Op.cols], ?_⟩
+    intro i j hi hj
+    simp only [Op.rows] at hi
+    simp only [Op.cols] at hj
+    simp only [Op.den, MatV.of_f, tridiagDen]
+    split
+    · exact vecEq_eq h4 i hi
+    · split
+      · exact vecEq_eq h3 j (by omega)
+      · split
+        · exact vecEq_eq h5 i (by omega)
+        · rfl
+  | transpose A, B, hw, h => by
+    cases B <;> simp only [sameObj, Bool.false_eq_true] at h
+    simp only [Op.wf] at hw
+    obtain ⟨h1, h2, h3⟩ := sameObj_sound A _ hw h
+    refine ⟨by simp only [Op.rows, h2], by simp only [Op.cols, h1], ?_⟩
+    intro i j hi hj
+    simp only [Op.rows] at hi
+    simp only [Op.cols] at hj
+    simp only [Op.den, MatV.of_f, transposeM]
+    exact h3 j i hj hi
+  | adjoint A, B, hw, h => by
+    cases B <;> simp only [sameObj, Bool.false_eq_true] at h
+    simp only [Op.wf] at hw
+    obtain ⟨h1, h2, h3⟩ := sameObj_sound A _ hw h
+    refine ⟨by simp only [Op.rows, h2], by simp only [Op.cols, h1], ?_⟩
+    intro i j hi hj
+    simp only [Op.rows] at hi
+    simp only [Op.cols] at hj
+    simp only [Op.den, MatV.of_f, transposeM, conjM]
+    rw [h3 j i hj hi]
+  | sliced A s t, B, hw, h => by
+    cases B <;> simp only [sameObj, Bool.false_eq_true] at h
+    simp only [Op.wf, Bool.and_eq_true] at hw
+    simp only [Bool.and_eq_true, beq_iff_eq] at h
+    obtain ⟨⟨rfl, rfl⟩, h⟩ := h
+    exact same_sliced s t (sameObj_sound A _ hw.1.1 h)
+  | perm d p, B, _, h => by
+    cases B <;> simp only [sameObj, Bool.false_eq_true] at h
+    simp only [Bool.and_eq_true, beq_iff_eq] at h
+    obtain ⟨rfl, rfl⟩ := h
+    exact ⟨rfl, rfl, EqOn.refl _ _ _⟩
+  | concat true Ms, B, hw, h => by
+    cases B <;> simp only [sameObj, Bool.false_eq_true] at h
+    have hw' := hw
+    simp only [Op.wf, Bool.and_eq_true] at hw'
+    simp only [Bool.and_eq_true, beq_iff_eq] at h
+    obtain ⟨rfl, h⟩ := h
+    exact same_concat_h hw (same_members (sameList_forall₂ _ _ h)
+      (fun M hM B hB => sameObj_sound M B (wf_members hw'.1.2 M hM) hB))
+  | concat false Ms, B, hw, h => by
+    cases B <;> simp only [sameObj, Bool.false_eq_true] at h
+    have hw' := hw
+    simp only [Op.wf, Bool.and_eq_true] at hw'
+    simp only [Bool.and_eq_true, beq_iff_eq] at h
+    obtain ⟨rfl, h⟩ := h
+    exact same_concat_v hw (same_members (sameList_forall₂ _ _ h)
+      (fun M hM B hB => sameObj_sound M B (wf_members hw'.1.2 M hM) hB))
+  | house d n v b, B, _, h => by
+    cases B <;> simp only [sameObj, Bool.false_eq_true] at h
+    simp only [Bool.and_eq_true, beq_iff_eq] at h
+    obtain ⟨⟨⟨rfl, rfl⟩, h3⟩, rfl⟩ := h
+    refine ⟨by simp only [Op.rows], by simp only [Op.cols], ?_⟩
+    intro i j hi hj
+    simp only [Op.rows] at hi
+    simp only [Op.cols] at hj
+    simp only [Op.den, MatV.of_f, houseDen, vecEq_eq h3 i hi, vecEq_eq h3 j hj]
+  | generic A, B, hw, h => by
+    cases B <;> simp only [sameObj, Bool.false_eq_true] at h
+    simp only [Op.wf] at hw
+    have := sameObj_sound A _ hw h
+    unfold Same at this ⊢
+    simp only [Op.rows, Op.cols, Op.den]
+    exact this
+  | annot a A, B, hw, h => by
+    cases B <;> simp only [sameObj, Bool.false_eq_true] at h
+    simp only [Op.wf] at hw
+    simp only [Bool.and_eq_true, beq_iff_eq] at h
+    have := sameObj_sound A _ hw h.2
+    unfold Same at this ⊢
+    simp only [Op.rows, Op.cols, Op.den]
+    exact this
+termination_by A => sizeOf A
+decreasing_by
+  all_goals simp_wf
+  all_goals first
+    | (have := List.sizeOf_lt_of_mem ‹_ ∈ _›; omega)
+    | omega
+
 end generic
+
+/-! ## the clauses -/
+
+section clauses
+variable {R : Type} [DecidableEq R]
+
+/-- the Gram test of `get_annotations(Product)` as a function of the member list -/
+def gramB : List (Op R) → Bool
+  | [A1, A2] => (isTA A1 || isTA A2) && areTheSame A1 A2 &&
+      (!A1.dtype.isComplex || !(isT A1 || isT A2))
+  | _ => false
+
+/-- the Gram test succeeds through a `Transpose` wrapper (only accepted for a real dtype) -/
+def gramViaTranspose : List (Op R) → Bool
+  | [A1, A2] => gramB [A1, A2] && (isT A1 || isT A2)
+  | _ => false
+
+theorem gramB_shape {Ms : List (Op R)} (h : gramB Ms = true) : ∃ A1 A2, Ms = [A1, A2] := by
+  match Ms, h with
+  | [A1, A2], _ => exact ⟨A1, A2, rfl⟩
+
+theorem anns_prod (Ms : List (Op R)) : (prod Ms).anns =
+    if gramB Ms = true then
+      AnnSet.union (AnnSet.inter (AnnSet.interAll (Ms.map (·.anns))) [.unitary, .stiefel]) [.psd]
+    else match (Ms.zip (Ms.map (·.anns))).filter (fun p => !isScalarMul p.1) with
+      | [p] => p.2
+      | _ => AnnSet.inter (AnnSet.interAll (Ms.map (·.anns))) [.unitary, .stiefel] := by
+  rw [Op.anns.eq_def]
+  simp only
+  unfold gramB
+  rfl
+
+/-- **the recorded defect at one `Product`**: some member is a `ScalarMul`, exactly one member is
+not, and that member reports a non-empty annotation set (which the code passes on unchanged). -/
+def prodScalarDefect (Ms : List (Op R)) : Bool :=
+  Ms.any isScalarMul &&
+    match Ms.filter (fun M => !isScalarMul M) with
+    | [M] => !M.anns.isEmpty
+    | _ => false
+
+/-- some `Product` node of the tree runs into `prodScalarDefect` -/
+def scalarTimesAnnotated : Op R → Bool
+  | prod Ms => prodScalarDefect Ms || (Ms.map (·.scalarTimesAnnotated)).any id
+  | sum Ms => (Ms.map (·.scalarTimesAnnotated)).any id
+  | kron Ms => (Ms.map (·.scalarTimesAnnotated)).any id
+  | kronsum Ms => (Ms.map (·.scalarTimesAnnotated)).any id
+  | bdiag Ms _ => (Ms.map (·.scalarTimesAnnotated)).any id
+  | concat _ Ms => (Ms.map (·.scalarTimesAnnotated)).any id
+  | transpose A => A.scalarTimesAnnotated
+  | adjoint A => A.scalarTimesAnnotated
+  | sliced A _ _ => A.scalarTimesAnnotated
+  | generic A => A.scalarTimesAnnotated
+  | annot _ A => A.scalarTimesAnnotated
+  | _ => false
+
+/-- NAMED clause of `C05_sound_partial`: no `Product` node has both a `ScalarMul` member and
+exactly one non-scalar member with a non-empty annotation set. -/
+def NoScalarTimesAnnotated (A : Op R) : Prop := A.scalarTimesAnnotated = false
+
+theorem sta_members {Ms : List (Op R)} (h : (Ms.map (·.scalarTimesAnnotated)).any id = false) :
+    ∀ M ∈ Ms, M.scalarTimesAnnotated = false := by
+  intro M hM
+  rw [List.any_eq_false] at h
+  have := h _ (List.mem_map.mpr ⟨M, hM, rfl⟩)
+  simpa using this
+
+theorem zip_map_filter {α β : Type} (f : α → β) (g : α → Bool) : ∀ (l : List α),
+    (l.zip (l.map f)).filter (fun p => g p.1) = (l.filter g).map (fun x => (x, f x))
+  | [] => rfl
+  | x :: l => by
+    simp only [List.map_cons, List.zip_cons_cons, List.filter_cons]
+    rw [zip_map_filter f g l]
+    split <;> rfl
+
+end clauses
+
+/-! ## soundness of the inference -/
+
+section sound
+variable {𝕜 : Type} [RCLike 𝕜]
+
+/-- every DECLARED annotation of the tree is true of the matrix it was declared on -/
+def LeavesTrue : Op 𝕜 → Prop
+  | prod Ms => ∀ M ∈ Ms, M.LeavesTrue
+  | sum Ms => ∀ M ∈ Ms, M.LeavesTrue
+  | kron Ms => ∀ M ∈ Ms, M.LeavesTrue
+  | kronsum Ms => ∀ M ∈ Ms, M.LeavesTrue
+  | bdiag Ms _ => ∀ M ∈ Ms, M.LeavesTrue
+  | concat _ Ms => ∀ M ∈ Ms, M.LeavesTrue
+  | transpose A => A.LeavesTrue
+  | adjoint A => A.LeavesTrue
+  | sliced A _ _ => A.LeavesTrue
+  | generic A => A.LeavesTrue
+  | annot a A => Holds a A.rows A.cols A.den.f ∧ A.LeavesTrue
+  | _ => True
+
+/-- the represented matrix has `star`-fixed (real) entries on its window -/
+def StarFixed (A : Op 𝕜) : Prop :=
+  ∀ i j, i < A.rows → j < A.cols → star (A.den.f i j) = A.den.f i j
+
+variable [DecidableEq 𝕜]
+
+/-- NAMED clause: at every `Product [A1, A2]` whose Gram pattern is detected through a
+`Transpose` wrapper (the code accepts it only when `A1.dtype` is real), the payload of `A1`
+really is real.  The dtype tag of the model does not constrain the carrier, so this is what "the
+array has a real dtype" means; it follows from `Op.RealTyped` (`C05.lean`). -/
+def GramTransposeReal : Op 𝕜 → Prop
+  | prod Ms => (gramViaTranspose Ms = true → ∀ A1 ∈ Ms.head?, StarFixed A1) ∧
+      ∀ M ∈ Ms, M.GramTransposeReal
+  | sum Ms => ∀ M ∈ Ms, M.GramTransposeReal
+  | kron Ms => ∀ M ∈ Ms, M.GramTransposeReal
+  | kronsum Ms => ∀ M ∈ Ms, M.GramTransposeReal
+  | bdiag Ms _ => ∀ M ∈ Ms, M.GramTransposeReal
+  | concat _ Ms => ∀ M ∈ Ms, M.GramTransposeReal
+  | transpose A => A.GramTransposeReal
+  | adjoint A => A.GramTransposeReal
+  | sliced A _ _ => A.GramTransposeReal
+  | generic A => A.GramTransposeReal
+  | annot _ A => A.GramTransposeReal
+  | _ => True
+
+/-- the statement at one node: every reported annotation holds of the represented matrix -/
+def AnnsTrue (A : Op 𝕜) : Prop := ∀ a ∈ A.anns, Holds a A.rows A.cols A.den.f
+
+/-- the hypotheses of the soundness theorem, bundled (all are inherited by members) -/
+structure SoundHyp (A : Op 𝕜) : Prop where
+  wf : A.wf = true
+  leaves : A.LeavesTrue
+  nsa : A.scalarTimesAnnotated = false
+  gtr : A.GramTransposeReal
+
+
+theorem SoundHyp.prod_mem {Ms : List (Op 𝕜)} (h : SoundHyp (prod Ms)) :
+    ∀ M ∈ Ms, SoundHyp M := by
+  obtain ⟨h1, h2, h3, h4⟩ := h
+  simp only [Op.wf, Bool.and_eq_true] at h1
+  simp only [LeavesTrue] at h2
+  simp only [Op.scalarTimesAnnotated, Bool.or_eq_false_iff] at h3
+  simp only [GramTransposeReal] at h4
+  exact fun M hM => ⟨wf_members h1.1.2 M hM, h2 M hM, sta_members h3.2 M hM, h4.2 M hM⟩
+
+theorem SoundHyp.sum_mem {Ms : List (Op 𝕜)} (h : SoundHyp (sum Ms)) :
+    ∀ M ∈ Ms, SoundHyp M := by
+  obtain ⟨h1, h2, h3, h4⟩ := h
+  simp only [Op.wf, Bool.and_eq_true] at h1
+  simp only [LeavesTrue] at h2
+  simp only [Op.scalarTimesAnnotated] at h3
+  simp only [GramTransposeReal] at h4
+  exact fun M hM => ⟨wf_members h1.1.2 M hM, h2 M hM, sta_members h3 M hM, h4 M hM⟩
+
+theorem SoundHyp.kron_mem {Ms : List (Op 𝕜)} (h : SoundHyp (kron Ms)) :
+    ∀ M ∈ Ms, SoundHyp M := by
+  obtain ⟨h1, h2, h3, h4⟩ := h
+  simp only [Op.wf, Bool.and_eq_true] at h1
+  simp only [LeavesTrue] at h2
+  simp only [Op.scalarTimesAnnotated] at h3
+  simp only [GramTransposeReal] at h4
+  exact fun M hM => ⟨wf_members h1.2 M hM, h2 M hM, sta_members h3 M hM, h4 M hM⟩
+
+theorem SoundHyp.kronsum_mem {Ms : List (Op 𝕜)} (h : SoundHyp (kronsum Ms)) :
+    ∀ M ∈ Ms, SoundHyp M := by
+  obtain ⟨h1, h2, h3, h4⟩ := h
+  simp only [Op.wf, Bool.and_eq_true] at h1
+  simp only [LeavesTrue] at h2
+  simp only [Op.scalarTimesAnnotated] at h3
+  simp only [GramTransposeReal] at h4
+  exact fun M hM => ⟨wf_members h1.1.2 M hM, h2 M hM, sta_members h3 M hM, h4 M hM⟩
+
+theorem SoundHyp.bdiag_mem {Ms : List (Op 𝕜)} {mults : List Nat} (h : SoundHyp (bdiag Ms mults)) :
+    ∀ M ∈ Ms, SoundHyp M := by
+  obtain ⟨h1, h2, h3, h4⟩ := h
+  simp only [Op.wf, Bool.and_eq_true] at h1
+  simp only [LeavesTrue] at h2
+  simp only [Op.scalarTimesAnnotated] at h3
+  simp only [GramTransposeReal] at h4
+  exact fun M hM => ⟨wf_members h1.1.2 M hM, h2 M hM, sta_members h3 M hM, h4 M hM⟩
+
+theorem SoundHyp.concat_mem {Ms : List (Op 𝕜)} {ax : Bool} (h : SoundHyp (concat ax Ms)) :
+    ∀ M ∈ Ms, SoundHyp M := by
+  obtain ⟨h1, h2, h3, h4⟩ := h
+  simp only [Op.wf, Bool.and_eq_true] at h1
+  simp only [LeavesTrue] at h2
+  simp only [Op.scalarTimesAnnotated] at h3
+  simp only [GramTransposeReal] at h4
+  exact fun M hM => ⟨wf_members h1.1.2 M hM, h2 M hM, sta_members h3 M hM, h4 M hM⟩
+
+theorem SoundHyp.transpose_child {A : Op 𝕜} (h : SoundHyp (transpose A)) : SoundHyp A := by
+  obtain ⟨h1, h2, h3, h4⟩ := h
+  simp only [Op.wf] at h1
+  simp only [LeavesTrue] at h2
+  simp only [Op.scalarTimesAnnotated] at h3
+  simp only [GramTransposeReal] at h4
+  exact ⟨h1, h2, h3, h4⟩
+
+theorem SoundHyp.adjoint_child {A : Op 𝕜} (h : SoundHyp (adjoint A)) : SoundHyp A := by
+  obtain ⟨h1, h2, h3, h4⟩ := h
+  simp only [Op.wf] at h1
+  simp only [LeavesTrue] at h2
+  simp only [Op.scalarTimesAnnotated] at h3
+  simp only [GramTransposeReal] at h4
+  exact ⟨h1, h2, h3, h4⟩
+
+theorem SoundHyp.generic_child {A : Op 𝕜} (h : SoundHyp (generic A)) : SoundHyp A := by
+  obtain ⟨h1, h2, h3, h4⟩ := h
+  simp only [Op.wf] at h1
+  simp only [LeavesTrue] at h2
+  simp only [Op.scalarTimesAnnotated] at h3
+  simp only [GramTransposeReal] at h4
+  exact ⟨h1, h2, h3, h4⟩
+
+theorem SoundHyp.sliced_child {A : Op 𝕜} {s0 s1 : Ix} (h : SoundHyp (sliced A s0 s1)) : SoundHyp A := by
+  obtain ⟨h1, h2, h3, h4⟩ := h
+  simp only [Op.wf, Bool.and_eq_true] at h1
+  simp only [LeavesTrue] at h2
+  simp only [Op.scalarTimesAnnotated] at h3
+  simp only [GramTransposeReal] at h4
+  exact ⟨h1.1.1, h2, h3, h4⟩
+
+theorem SoundHyp.annot_child {a : Ann} {A : Op 𝕜} (h : SoundHyp (annot a A)) : SoundHyp A := by
+  obtain ⟨h1, h2, h3, h4⟩ := h
+  simp only [Op.wf] at h1
+  simp only [LeavesTrue] at h2
+  simp only [Op.scalarTimesAnnotated] at h3
+  simp only [GramTransposeReal] at h4
+  exact ⟨h1, h2.2, h3, h4⟩
+
+/-! ### the nodes, one constructor at a time -/
+
+omit [DecidableEq 𝕜] in
+theorem facDen_map_r (Ms : List (Op 𝕜)) : (Ms.map facDen).map (·.r) = Ms.map (·.rows) := by
+  rw [List.map_map]; rfl
+omit [DecidableEq 𝕜] in
+theorem facDen_map_c (Ms : List (Op 𝕜)) : (Ms.map facDen).map (·.c) = Ms.map (·.cols) := by
+  rw [List.map_map]; rfl
+
+theorem annsTrue_eye (dt : DType) (n : Nat) : AnnsTrue (eye dt n : Op 𝕜) := by
+  intro a _
+  simp only [Op.rows, Op.cols, Op.den, MatV.of_f]
+  exact holds_eyeM a n
+
+theorem annsTrue_perm (dt : DType) (p : List Nat) (hw : (perm dt p : Op 𝕜).wf = true) :
+    AnnsTrue (perm dt p : Op 𝕜) := by
+  intro a ha
+  simp only [Op.anns, List.mem_singleton] at ha
+  subst ha
+  simp only [Op.wf, Bool.and_eq_true, List.all_eq_true, decide_eq_true_eq] at hw
+  simp only [Op.rows, Op.cols, Op.den, MatV.of_f]
+  exact holds_permDen p hw.1 hw.2
+
+theorem annsTrue_kron (Ms : List (Op 𝕜)) (ih : ∀ M ∈ Ms, AnnsTrue M) : AnnsTrue (kron Ms) := by
+  intro a ha
+  simp only [Op.anns] at ha
+  have hm := AnnSet.mem_interAll_map ha
+  have key := holds_kronDen a (Ms.map facDen) (by
+    intro F hF
+    obtain ⟨M, hM, rfl⟩ := List.mem_map.mp hF
+    exact ih M hM a (hm M hM))
+  rw [facDen_map_r, facDen_map_c] at key
+  simp only [Op.rows, Op.cols, Op.den, forceV_f]
+  exact key
+
+theorem annsTrue_bdiag (Ms : List (Op 𝕜)) (mults : List Nat) (ih : ∀ M ∈ Ms, AnnsTrue M) :
+    AnnsTrue (bdiag Ms mults) := by
+  intro a ha
+  simp only [Op.anns] at ha
+  have hm := AnnSet.mem_interAll_map ha
+  have key := holds_bdiagDen a ((Ms.map facDen).zip mults) (by
+    intro q hq
+    have hF := (List.of_mem_zip (a := q.1) (b := q.2) hq).1
+    obtain ⟨M, hM, hMe⟩ := List.mem_map.mp hF
+    rw [← hMe]
+    exact ih M hM a (hm M hM))
+  rw [← dotSum_rows facDen Ms mults, ← dotSum_cols facDen Ms mults] at key
+  simp only [Op.rows, Op.cols, Op.den, forceV_f]
+  exact key
+
+theorem annsTrue_sum (Ms : List (Op 𝕜)) (hw : (sum Ms).wf = true) (ih : ∀ M ∈ Ms, AnnsTrue M) :
+    AnnsTrue (sum Ms) := by
+  intro a ha
+  simp only [Op.anns] at ha
+  rw [AnnSet.mem_diff] at ha
+  have hm := AnnSet.mem_interAll_map ha.1
+  have hsh := sum_shapes Ms hw
+  have hmem : ∀ M ∈ Ms, Holds a (sum Ms).rows (sum Ms).cols M.den.f := by
+    intro M hM
+    have := ih M hM a (hm M hM)
+    rwa [(hsh M hM).1, (hsh M hM).2] at this
+  have hne : ∃ M, M ∈ Ms := by
+    cases Ms with
+    | nil => simp [Op.wf] at hw
+    | cons M _ => exact ⟨M, List.mem_cons_self⟩
+  obtain ⟨M0, hM0⟩ := hne
+  rcases Ann.sa_or_psd ha.2 with rfl | rfl
+  · have hsq : (sum Ms).rows = (sum Ms).cols := (hmem M0 hM0).1
+    have key := holds_foldr_addM_selfAdjoint (sum Ms).rows (Ms.map (·.den.f)) (by
+      intro D hD
+      obtain ⟨M, hM, rfl⟩ := List.mem_map.mp hD
+      have := hmem M hM
+      rwa [← hsq] at this)
+    rw [← hsq]
+    simp only [Op.den, forceV_f]
+    exact key
+  · have hsq : (sum Ms).rows = (sum Ms).cols := (hmem M0 hM0).1
+    have key := holds_foldr_addM_psd (sum Ms).rows (Ms.map (·.den.f)) (by
+      intro D hD
+      obtain ⟨M, hM, rfl⟩ := List.mem_map.mp hD
+      have := hmem M hM
+      rwa [← hsq] at this)
+    rw [← hsq]
+    simp only [Op.den, forceV_f]
+    exact key
+
+omit [DecidableEq 𝕜] in
+theorem slicesSymmetric_eq {s0 s1 : Ix} (h : slicesSymmetric s0 s1 = true) : s0 = s1 := by
+  cases s0 <;> cases s1 <;> simp only [slicesSymmetric, Bool.and_eq_true, beq_iff_eq,
+    Bool.false_eq_true] at h
+  · obtain ⟨⟨rfl, rfl⟩, rfl⟩ := h; rfl
+  · subst h; rfl
+
+theorem annsTrue_sliced (A : Op 𝕜) (s0 s1 : Ix) (ih : AnnsTrue A) :
+    AnnsTrue (sliced A s0 s1) := by
+  intro a ha
+  simp only [Op.anns] at ha
+  split at ha
+  · rename_i hs
+    obtain rfl := slicesSymmetric_eq hs
+    rw [AnnSet.mem_diff] at ha
+    have hA := ih a ha.1
+    have ha' := Ann.sa_or_psd ha.2
+    have hsq : A.rows = A.cols := by
+      rcases ha' with rfl | rfl
+      · exact hA.1
+      · exact hA.1
+    rw [← hsq] at hA
+    have key := holds_slicedDen a ha' A.rows A.den.f ((Ix.resolve A.rows s0).getD [])
+      (getD_resolve_lt _ _) hA
+    simp only [Op.rows, Op.cols, Op.den, MatV.of_f, ← hsq]
+    exact key
+  · simp at ha
+
+theorem annsTrue_transpose (A : Op 𝕜) (ih : AnnsTrue A) : AnnsTrue (transpose A) := by
+  intro a ha
+  simp only [Op.anns] at ha
+  simp only [Op.rows, Op.cols, Op.den, MatV.of_f]
+  split at ha
+  · rename_i hsq
+    exact holds_transpose a _ _ _ (ih a ha) (fun _ => hsq)
+  · rw [AnnSet.mem_diff] at ha
+    exact holds_transpose a _ _ _ (ih a ha.1) (fun h => by simp [h] at ha)
+
+theorem annsTrue_adjoint (A : Op 𝕜) (ih : AnnsTrue A) : AnnsTrue (adjoint A) := by
+  intro a ha
+  simp only [Op.anns] at ha
+  simp only [Op.rows, Op.cols, Op.den, MatV.of_f]
+  split at ha
+  · rename_i hsq
+    exact holds_adjoint a _ _ _ (ih a ha) (fun _ => hsq)
+  · rw [AnnSet.mem_diff] at ha
+    exact holds_adjoint a _ _ _ (ih a ha.1) (fun h => by simp [h] at ha)
+
+theorem annsTrue_annot (b : Ann) (A : Op 𝕜) (hb : Holds b A.rows A.cols A.den.f)
+    (ih : AnnsTrue A) : AnnsTrue (annot b A) := by
+  intro a ha
+  simp only [Op.anns] at ha
+  rw [AnnSet.mem_union] at ha
+  simp only [Op.rows, Op.cols, Op.den]
+  rcases ha with ha | ha
+  · exact ih a ha
+  · simp only [List.mem_singleton] at ha
+    subst ha
+    exact hb
+
+/-! ### `Product` -/
+
+omit [DecidableEq 𝕜] in
+/-- a chain of Stiefel (unitary) members is Stiefel (unitary) -/
+theorem holds_denChain (a : Ann) (ha : a = .stiefel ∨ a = .unitary) :
+    ∀ (Ms : List (Op 𝕜)) (M0 : Op 𝕜),
+    (∀ M ∈ M0 :: Ms, Holds a M.rows M.cols M.den.f) →
+    chainOk ((M0 :: Ms).map (fun M => (M.rows, M.cols))) = true →
+    Holds a M0.rows (((M0 :: Ms).map (·.cols)).getLast?.getD 0) (denChain (M0 :: Ms))
+  | [], M0, h, _ => by
+    simp only [List.map_cons, List.map_nil, List.getLast?_singleton, Option.getD_some,
+      denChain_cons]
+    exact holds_mmul a ha _ _ _ _ _ (h M0 List.mem_cons_self) (holds_eyeM a _)
+  | M1 :: Ms, M0, h, hc => by
+    simp only [List.map_cons, chainOk, Bool.and_eq_true, beq_iff_eq] at hc
+    have ih := holds_denChain a ha Ms M1 (fun M hM => h M (List.mem_cons_of_mem _ hM))
+      (by simpa using hc.2)
+    rw [← hc.1] at ih
+    simp only [List.map_cons, List.getLast?_cons_cons, denChain_cons] at ih ⊢
+    exact holds_mmul a ha _ _ _ _ _ (h M0 List.mem_cons_self) ih
+
+omit [DecidableEq 𝕜] in
+theorem holds_prod_chain (a : Ann) (ha : a = .stiefel ∨ a = .unitary) (Ms : List (Op 𝕜))
+    (hw : (prod Ms).wf = true) (h : ∀ M ∈ Ms, Holds a M.rows M.cols M.den.f) :
+    Holds a (prod Ms).rows (prod Ms).cols (prod Ms).den.f := by
+  simp only [Op.wf, Bool.and_eq_true] at hw
+  cases Ms with
+  | nil => simp at hw
+  | cons M0 Ms =>
+    have := holds_denChain a ha Ms M0 h hw.2
+    simp only [Op.rows, Op.cols, Op.den, forceV_f, List.map_cons, List.head?_cons,
+      Option.getD_some] at this ⊢
+    exact this
+
+omit [DecidableEq 𝕜] in
+theorem holds_prod_single (a : Ann) (M : Op 𝕜) (h : Holds a M.rows M.cols M.den.f) :
+    Holds a (prod [M]).rows (prod [M]).cols (prod [M]).den.f := by
+  simp only [Op.rows, Op.cols, Op.den, forceV_f, List.map_cons, List.map_nil, List.head?_cons,
+    List.getLast?_singleton, Option.getD_some, List.foldr_cons, List.foldr_nil]
+  exact Holds.congr (eqOn_mmul_eyeM_right M.rows M.cols M.den.f).symm h
+
+omit [DecidableEq 𝕜] in
+theorem prod_pair_den (A1 A2 : Op 𝕜) :
+    EqOn A1.rows A2.cols (mmul A1.cols A1.den.f A2.den.f) (prod [A1, A2]).den.f := by
+  simp only [Op.den, forceV_f, List.map_cons, List.map_nil, List.foldr_cons, List.foldr_nil]
+  exact mmul_congr (EqOn.refl _ _ _) (eqOn_mmul_eyeM_right A1.cols A2.cols A2.den.f).symm
+
+omit [DecidableEq 𝕜] in
+/-- `[A1, A2]` with `A2 ≈ A1ᴴ` on the window -/
+theorem holds_gram_pair_right (A1 A2 : Op 𝕜) (hc : A2.cols = A1.rows)
+    (hX : EqOn A1.cols A1.rows (conjM (transposeM A1.den.f)) A2.den.f) :
+    Holds .psd (prod [A1, A2]).rows (prod [A1, A2]).cols (prod [A1, A2]).den.f := by
+  have h1 : (prod [A1, A2]).rows = A1.rows := by simp [Op.rows]
+  have h2 : (prod [A1, A2]).cols = A1.rows := by simp [Op.cols, hc]
+  rw [h1, h2]
+  have key := Holds.congr (mmul_congr (EqOn.refl A1.rows A1.cols A1.den.f) hX)
+    (holds_gram_right A1.rows A1.cols A1.den.f)
+  have hp := prod_pair_den A1 A2
+  rw [hc] at hp
+  exact Holds.congr hp key
+
+omit [DecidableEq 𝕜] in
+/-- `[A1, A2]` with `A1 ≈ A2ᴴ` on the window -/
+theorem holds_gram_pair_left (A1 A2 : Op 𝕜) (hr : A1.rows = A2.cols) (hch : A1.cols = A2.rows)
+    (hX : EqOn A2.cols A2.rows (conjM (transposeM A2.den.f)) A1.den.f) :
+    Holds .psd (prod [A1, A2]).rows (prod [A1, A2]).cols (prod [A1, A2]).den.f := by
+  have h1 : (prod [A1, A2]).rows = A2.cols := by simp [Op.rows, hr]
+  have h2 : (prod [A1, A2]).cols = A2.cols := by simp [Op.cols]
+  rw [h1, h2]
+  have key := Holds.congr (mmul_congr hX (EqOn.refl A2.rows A2.cols A2.den.f))
+    (holds_gram_left A2.rows A2.cols A2.den.f)
+  have hp := prod_pair_den A1 A2
+  rw [hr, hch] at hp
+  exact Holds.congr hp key
+
+theorem areTheSame_cases {R : Type} [DecidableEq R] {A1 A2 : Op R}
+    (h : areTheSame A1 A2 = true) :
+    (∃ B, A2.core = adjoint B ∧ sameObj A1 B = true) ∨
+    (∃ B, A2.core = transpose B ∧ sameObj A1 B = true) ∨
+    (∃ B, A1.core = adjoint B ∧ sameObj B A2 = true) ∨
+    (∃ B, A1.core = transpose B ∧ sameObj B A2 = true) := by
+  unfold areTheSame at h
+  split at h
+  · rename_i B hB; exact Or.inl ⟨B, hB, h⟩
+  · rename_i B hB; exact Or.inr (Or.inl ⟨B, hB, h⟩)
+  · split at h
+    · rename_i B hB; exact Or.inr (Or.inr (Or.inl ⟨B, hB, h⟩))
+    · rename_i B hB; exact Or.inr (Or.inr (Or.inr ⟨B, hB, h⟩))
+    · simp at h
+
+theorem isT_of_core {R : Type} {A B : Op R} (h : A.core = transpose B) : isT A = true := by
+  simp [isT, h]
+
+/-- the Gram pattern `[A1, A2]` detected by the code is PSD -/
+theorem holds_gram (A1 A2 : Op 𝕜) (hw : (prod [A1, A2]).wf = true) (hg : gramB [A1, A2] = true)
+    (hreal : gramViaTranspose [A1, A2] = true → StarFixed A1) :
+    Holds .psd (prod [A1, A2]).rows (prod [A1, A2]).cols (prod [A1, A2]).den.f := by
+  have hg' := hg
+  simp only [gramB, Bool.and_eq_true] at hg'
+  simp only [Op.wf, List.map_cons, List.map_nil, chainOk, Bool.and_eq_true, beq_iff_eq,
+    List.all_cons, List.all_nil, id] at hw
+  obtain ⟨⟨_, hw1, hw2, _⟩, hch, _⟩ := hw
+  rcases areTheSame_cases hg'.1.2 with ⟨B, hB, hs⟩ | ⟨B, hB, hs⟩ | ⟨B, hB, hs⟩ | ⟨B, hB, hs⟩
+  · -- A2 = (A1)ᴴ
+    obtain ⟨s1, s2, s3⟩ := sameObj_sound A1 B hw1 hs
+    have hc : A2.cols = A1.rows := by rw [← core_cols, hB]; simp only [Op.cols, s1]
+    have hd : A2.den.f = conjM (transposeM B.den.f) := by
+      rw [← core_den, hB]; simp only [Op.den, MatV.of_f]
+    refine holds_gram_pair_right A1 A2 hc ?_
+    intro i j hi hj
+    rw [hd]
+    simp only [conjM, transposeM]
+    rw [s3 j i hj hi]
+  · -- A2 = (A1)ᵀ, real
+    have hsf := hreal (by simp [gramViaTranspose, hg, isT_of_core hB])
+    obtain ⟨s1, s2, s3⟩ := sameObj_sound A1 B hw1 hs
+    have hc : A2.cols = A1.rows := by rw [← core_cols, hB]; simp only [Op.cols, s1]
+    have hd : A2.den.f = transposeM B.den.f := by
+      rw [← core_den, hB]; simp only [Op.den, MatV.of_f]
+    refine holds_gram_pair_right A1 A2 hc ?_
+    intro i j hi hj
+    rw [hd]
+    simp only [conjM, transposeM]
+    rw [hsf j i hj hi, s3 j i hj hi]
+  · -- A1 = (A2)ᴴ
+    have hBw : B.wf = true := by
+      have := core_wf A1; rw [hB] at this; simp only [Op.wf] at this; rw [this]; exact hw1
+    obtain ⟨s1, s2, s3⟩ := sameObj_sound B A2 hBw hs
+    have hr : A1.rows = A2.cols := by rw [← core_rows, hB]; simp only [Op.rows, s2]
+    have hd : A1.den.f = conjM (transposeM B.den.f) := by
+      rw [← core_den, hB]; simp only [Op.den, MatV.of_f]
+    refine holds_gram_pair_left A1 A2 hr hch ?_
+    intro i j hi hj
+    rw [hd]
+    simp only [conjM, transposeM]
+    rw [s3 j i (by rw [s1]; exact hj) (by rw [s2]; exact hi)]
+  · -- A1 = (A2)ᵀ, real
+    have hsf := hreal (by simp [gramViaTranspose, hg, isT_of_core hB])
+    have hBw : B.wf = true := by
+      have := core_wf A1; rw [hB] at this; simp only [Op.wf] at this; rw [this]; exact hw1
+    obtain ⟨s1, s2, s3⟩ := sameObj_sound B A2 hBw hs
+    have hr : A1.rows = A2.cols := by rw [← core_rows, hB]; simp only [Op.rows, s2]
+    have hc1 : A1.cols = B.rows := by rw [← core_cols, hB]; simp only [Op.cols]
+    have hd : A1.den.f = transposeM B.den.f := by
+      rw [← core_den, hB]; simp only [Op.den, MatV.of_f]
+    refine holds_gram_pair_left A1 A2 hr hch ?_
+    intro i j hi hj
+    have hsf' := hsf i j (by rw [hr]; exact hi) (by rw [hch]; exact hj)
+    rw [hd] at hsf' ⊢
+    simp only [conjM, transposeM] at hsf' ⊢
+    rw [← s3 j i (by rw [s1]; exact hj) (by rw [s2]; exact hi)]
+    exact hsf'
+
+theorem annsTrue_prod (Ms : List (Op 𝕜)) (hw : (prod Ms).wf = true)
+    (hdef : prodScalarDefect Ms = false)
+    (hreal : gramViaTranspose Ms = true → ∀ A1 ∈ Ms.head?, StarFixed A1)
+    (ih : ∀ M ∈ Ms, AnnsTrue M) : AnnsTrue (prod Ms) := by
+  intro a ha
+  rw [anns_prod] at ha
+  have hinter : a ∈ AnnSet.inter (AnnSet.interAll (Ms.map (·.anns))) [.unitary, .stiefel] →
+      Holds a (prod Ms).rows (prod Ms).cols (prod Ms).den.f := by
+    intro h
+    rw [AnnSet.mem_inter] at h
+    have hm := AnnSet.mem_interAll_map h.1
+    exact holds_prod_chain a (Ann.st_or_un h.2) Ms hw (fun M hM => ih M hM a (hm M hM))
+  split at ha
+  · rename_i hg
+    rw [AnnSet.mem_union] at ha
+    rcases ha with ha | ha
+    · exact hinter ha
+    · simp only [List.mem_singleton] at ha
+      subst ha
+      obtain ⟨A1, A2, rfl⟩ := gramB_shape hg
+      exact holds_gram A1 A2 hw hg (fun h => hreal h A1 (by simp))
+  · rw [zip_map_filter (fun M : Op 𝕜 => M.anns) (fun M => !isScalarMul M) Ms] at ha
+    split at ha
+    · rename_i p hp
+      -- exactly one non-scalar member
+      cases hf : Ms.filter (fun M => !isScalarMul M) with
+      | nil => rw [hf] at hp; simp at hp
+      | cons M rest =>
+        rw [hf] at hp
+        simp only [List.map_cons, List.cons.injEq, List.map_eq_nil_iff] at hp
+        obtain ⟨rfl, rfl⟩ := hp
+        simp only at ha
+        have hne : M.anns.isEmpty = false := by
+          cases hM : M.anns with
+          | nil => rw [hM] at ha; simp at ha
+          | cons _ _ => rfl
+        have hany : Ms.any isScalarMul = false := by
+          simp only [prodScalarDefect, hf, hne, Bool.not_false, Bool.and_true] at hdef
+          exact hdef
+        have hall : Ms.filter (fun M => !isScalarMul M) = Ms := by
+          rw [List.filter_eq_self]
+          intro N hN
+          rw [List.any_eq_false] at hany
+          simpa using hany N hN
+        rw [hall] at hf
+        subst hf
+        exact holds_prod_single a M (ih M List.mem_cons_self a ha)
+    · exact hinter ha
+
+end sound
+
 end Op
